@@ -337,6 +337,32 @@ fn g_illformed(src: &mut Src, obs: &mut Obs) -> CaseResult {
     Ok(())
 }
 
+/// every Unicode scalar value, once in a short name (must be kept verbatim) and once straddling
+/// the 64-byte cut. words: [scalar (raw), position selector]
+fn g_scalar(src: &mut Src, obs: &mut Obs) -> CaseResult {
+    let cp = src.word();
+    let sel = src.below(4);
+    let Some(c) = char::from_u32(cp) else {
+        obs.excluded = true;
+        return Ok(());
+    };
+    let s = match sel {
+        0 => format!("ab{}cd", c),
+        1 => format!("{}", c),
+        // the character starts at offset 64 - k so that it straddles (or just precedes) the cut
+        k => {
+            let start = 64 - (k - 1).min(c.len_utf8());
+            let mut s: String = (0..start).map(|i| (b'a' + (i % 26) as u8) as char).collect();
+            s.push(c);
+            s.push_str("tail-after-the-cut");
+            s
+        }
+    };
+    obs.label("scalar-sweep");
+    check_name(&s, obs)
+}
+pub const G_SCALAR: Gen = Gen { name: "c13_scalar", f: g_scalar };
+
 fn g_name_concrete(src: &mut Src, obs: &mut Obs) -> CaseResult {
     let b = crate::run::unpack_bytes(src);
     obs.label("concrete");
@@ -381,7 +407,7 @@ pub const G_NAME_C: Gen = Gen { name: "c13_name", f: g_name_concrete };
 pub const G_ICON_C: Gen = Gen { name: "c13_icon", f: g_icon_concrete };
 
 pub fn gens() -> Vec<Gen> {
-    vec![G_STRADDLE, G_RANDOM, G_ICON, G_ILL, G_NAME_C, G_ICON_C]
+    vec![G_STRADDLE, G_RANDOM, G_ICON, G_ILL, G_NAME_C, G_ICON_C, G_SCALAR]
 }
 
 pub const RULE: &str = "(a) enumerated: strings pad || w1..w8 || tail with pad = 56..64 ASCII bytes and every arrangement of character widths 1-4 in the 8 characters straddling byte 64 (thorough: all 4^8 patterns x 9 alignments; quick: all 4^5 patterns of the first five straddling characters x 9 alignments, remaining three random), several scalars per width incl. U+0000, U+D7FF, U+FFFF, U+10FFFF; (b) proptest: random Unicode text of 0..300 bytes; (c) icons of every length 0..300 (mixed-width text) as user icon, rp icon and legacy url; (d) ill-formed UTF-8: a valid text with one byte replaced by 0x80/0xC0/0xE0/0xF8/0xFF at a random position, truncated multi-byte sequences, surrogates, overlongs, cut characters, in each of rp.name, user.name, user.displayName, user.icon, rp.icon. Every string goes through the stand-alone user and rp entities, a MakeCredential request and a CredentialManagement updateUserInformation request. Oracle: names equal the prefix ending at the largest char boundary <= 64 computed with str::is_char_boundary, valid UTF-8, <= 64 bytes; icon <= 128 kept verbatim, longer reported absent with the request accepted; rp icon/url of any length accepted; text that std::str::from_utf8 rejects must be rejected (InvalidCbor). Non-trivial: a name longer than 64 bytes whose byte 64 is not a boundary (the cut had to move), an icon of >= 127 bytes, or an actually ill-formed text; evaluations count decode paths.";
@@ -409,6 +435,16 @@ pub fn run(ctx: &mut Ctx) {
     if ctx.too_many() {
         return;
     }
+    // every Unicode scalar value (1 112 064) in a short name and on the cut (quick: the position rotates)
+    let quick = ctx.quick();
+    ctx.enumerate(
+        &G_SCALAR,
+        (0u32..0x11_0000).filter(|c| !(0xD800..0xE000).contains(c)).flat_map(move |c| {
+            let sels: Vec<usize> = if quick { vec![(c % 4) as usize] } else { vec![0, 1, 2, 3] };
+            sels.into_iter().map(move |k| vec![c, idx(k, 4)])
+        }),
+    );
+    ctx.exhaustive.push("every Unicode scalar value in a short name and straddling the 64-byte cut".into());
     ctx.random(&G_RANDOM, &[], ctx.t(6_000, 300_000), 400);
     // (c) every icon length 0..=300, several contents each
     for n in 0..=300u32 {
@@ -417,7 +453,7 @@ pub fn run(ctx: &mut Ctx) {
     ctx.exhaustive.push("every icon length 0..=300".into());
     ctx.random(&G_ILL, &[], ctx.t(12_000, 500_000), 200);
     ctx.require(&[
-        "name:fits", "name:cut-at-64", "name:cut-moved-1", "name:cut-moved-2", "name:cut-moved-3", "icon:127", "icon:128",
+        "scalar-sweep", "name:fits", "name:cut-at-64", "name:cut-moved-1", "name:cut-moved-2", "name:cut-moved-3", "icon:127", "icon:128",
         "icon:129", "icon:>129", "illformed:invalid", "illformed-field:rp.name", "illformed-field:user.name",
         "illformed-field:user.displayName", "illformed-field:user.icon", "illformed-field:rp.icon",
     ]);
